@@ -140,8 +140,8 @@ def sampleTree : Elem :=
 def sampleEnv : String → Option Elem := fun n => if n = "Pet" then some sampleObj else none
 
 example : WF sampleEnv sampleTree := by
-  simp [WF, WFL, WFO, WFK, sampleTree, sampleObj, sampleEnv, NodeOK, Elem.leaf, Elem.compose, Elem.trivial]
-  refine ⟨?_, ?_, ?_⟩ <;> constructor <;> simp [BoundKey, PatKey, DepOK, Key.src, Elem.trivial, Elem.leaf]
+  simp [WF, WFL, WFO, WFK, WFD, sampleTree, sampleObj, sampleEnv, NodeOK, Elem.leaf, Elem.compose, Elem.trivial]
+  refine ⟨?_, ?_⟩ <;> constructor <;> simp [BoundKey, PatKey, DepOK, Key.src, Elem.trivial, Elem.leaf]
 
 /-- the executable form the driver reports (`namespaceOf` = the tree's own object classes), evaluated in the kernel -/
 example : evalBack sampleTree = true := by decide +kernel
